@@ -18,10 +18,20 @@ import (
 	"golang.org/x/tools/go/ssa/ssautil"
 )
 
-const (
-	RepoRoot   = "/repo/dnsrocks"
-	CdbModRoot = "/repo/dnsrocks/go-cdb-mods"
+// RepoRoot and CdbModRoot are the module roots analysed. GOSYM_REPO (development only: a scratch
+// worktree) moves them; registered commands never set it.
+var (
+	RepoTop    = repoTop()
+	RepoRoot   = RepoTop + "/dnsrocks"
+	CdbModRoot = RepoTop + "/dnsrocks/go-cdb-mods"
 )
+
+func repoTop() string {
+	if d := os.Getenv("GOSYM_REPO"); d != "" {
+		return d
+	}
+	return "/repo"
+}
 
 // Harness describes one //verif:harness directive.
 type Harness struct {
